@@ -345,6 +345,8 @@ func (a *AggregatePlan) Batch(ctx *ExecuteCtx) ([][]Column, error) {
 		}
 		if nrows <= restSkips {
 			a.skips += nrows
+			// All of these rows are skipped, none of them is left to return
+			rows = nil
 		} else {
 			a.skips += restSkips
 			rows = rows[restSkips:]
